@@ -173,7 +173,8 @@ def ctor_into_iter(chk, cfg):
                self_re=r"^&seq::slice::SeqSlice<A>$")
     if b is None:
         return None, None
-    paths, N = an.analyse(cfg, b)
+    # into_iter and the inherent iter() may delegate to each other in either direction: resolve the delegation
+    paths, N = an.analyse(cfg, b, policy=an.InlineAll())
     rets = [p for p in paths if p.end == "return"]
     if len(rets) != 1 or rets[0].guards or rets[0].ret[0] != "agg":
         chk.cannot("G05c", "IntoIterator for &SeqSlice", "not a single struct literal", b["span"])
@@ -190,10 +191,16 @@ def glue(chk, cfg):
     import re
     b = an.one(chk, "S-glue", cfg.bio, "SeqSlice::iter", name="iter", self_re=r"^seq::slice::SeqSlice<A>$", inherent=True)
     if b:
-        paths, N = an.analyse(cfg, b)
-        r = [p for p in paths if p.end == "return"]
-        ok = len(r) == 1 and not r[0].guards and r[0].ret[0] == "call" and re.match(INTO, r[0].ret[1]) and r[0].ret[2] == (P(1),)
-        chk.ob("S-glue", "SeqSlice::iter", ok, "iter() must be into_iter(self): " + (show(r[0].ret) if r else "?"), b["span"])
+        # iter() and into_iter() may delegate in either direction: resolved, both must be the same initial state
+        def resolved(body):
+            ps, _ = an.analyse(cfg, body, policy=an.InlineAll())
+            rr = [p for p in ps if p.end == "return"]
+            return rr[0].ret if len(rr) == 1 and not rr[0].guards and len(ps) == 1 else None
+        bi = an.methods(cfg.bio, "into_iter", trait="std::iter::IntoIterator", self_re=r"^&seq::slice::SeqSlice<A>$")
+        r1 = resolved(b)
+        r2 = resolved(bi[0]) if len(bi) == 1 else None
+        ok = r1 is not None and r1 == r2 and r1[0] == "agg"
+        chk.ob("S-glue", "SeqSlice::iter", ok, "iter() must be into_iter(self): %s vs %s" % (show(r1) if r1 else "?", show(r2) if r2 else "?"), b["span"])
     b = an.one(chk, "S-glue", cfg.bio, "IntoIterator for &Seq", name="into_iter", trait="std::iter::IntoIterator", self_re=r"^&seq::Seq<A>$")
     if b:
         paths, N = an.analyse(cfg, b)
